@@ -203,7 +203,11 @@ func (m *mux) ensureContext(r *http.Request) *chi.Context {
 	// so using the context of the request would record the pattern and the
 	// parameters a second time when chi routes the request.
 	lookup := chi.NewRouteContext()
-	if !m.Router.Match(lookup, r.Method, r.URL.Path) {
+	path := r.URL.RawPath // what chi routes on when it is set
+	if path == "" {
+		path = r.URL.Path
+	}
+	if !m.Router.Match(lookup, r.Method, path) {
 		return nil // route not handled by chi
 	}
 	return lookup
